@@ -25,7 +25,7 @@ ASSUMPTIONS = ['max_fragment_size >= distance between a read and its DS site (th
                'get_binned_counts applies its documented default filter (read 1, not duplicate, not qc-fail, DS present) without MAPQ / mp']
 MIN_NONTRIVIAL = {'quick': 150, 'thorough': 8000}
 REQUIRED_MONITORS = ['multibam:count_runs', 'pipeline:count_runs', 'ret:obtain_counts', 'ret:get_binned_counts', 'oracle:matrix_cells_compared', 'splits:compared', 'lib:non_proper_pairs',
-                     'lib:sites_on_job_boundary', 'lib:reads_with_site_0']
+                     'lib:sites_on_job_boundary', 'lib:reads_with_site_0', 'history:shared_options_dict_rounds']
 SHARD_TIMEOUT = {'quick': 900, 'thorough': 5400}
 
 
@@ -192,6 +192,7 @@ def run_case(case):
     expect_da = Counter()
     expect_gbc = Counter()   # get_binned_counts semantics
     expect_imp = Counter()   # with the mappability tag ignored (ignore_mp=True): every other filter still applies
+    countable = []           # (matrix cell, mapping quality) of every record that is counted at threshold 0
     rid = 1
     nonproper = 0
     on_boundary = 0
@@ -237,6 +238,9 @@ def run_case(case):
             da = r.choice([None, 'A', 'B'])
             kind = r.choice(['proper', 'proper', 'nonproper', 'single', 'r2only'])
             tags = {'SM': cell, 'DS': site, 'RC': 1 if dup else 0}
+            if r.random() < 0.1:
+                tags['DS'] = str(site)      # the site stored as text (DS:Z:...) instead of as an integer
+                acc.count('lib:site_tag_stored_as_text')
             if untagged:
                 del tags['SM']
                 cell = UNTAGGED_LABEL
@@ -269,6 +273,8 @@ def run_case(case):
                     on_boundary += 1
             if is_r1 and not dup and not qcf and mapq >= min_mq:
                 expect_imp[(name, b0, b1, cell)] += 1
+            if is_r1 and not dup and not qcf and (mp is None or mp == 'unique'):
+                countable.append(((name, b0, b1, cell), mapq))
             if is_r1 and not dup and not qcf:
                 expect_gbc[(name, b0, cell)] += 1
             sites_list.append(site)
@@ -333,6 +339,35 @@ def run_case(case):
                 acc.count('splits:compared')
                 if on_boundary:
                     acc.sigs.add(f"{case['i']}/{bin_size}/{bpj}/{threads}/{key_tags}")
+        # ---- history: one options dictionary serves several counting rounds with different thresholds, the jobs run in the calling process
+        # (the same dictionary object travels with every command of every round)
+        if case['i'] % 2 == 0:
+            opts = {}
+            for mq in r.sample([0, 20, 50, 60], 3):
+                cmds = list(bbc.generate_commands(bam, bin_size=bin_size, bins_per_job=r.choice(bpj_all), min_mq=mq, max_fragment_size=mfs,
+                                                  key_tags=None, dedup=True, kwargs=opts))
+                merged = {}
+                try:
+                    with contextlib.redirect_stdout(io.StringIO()):
+                        for cmd in cmds:
+                            for bin_id, sd in bbc.count_fragments_binned(cmd).items():
+                                tgt = merged.setdefault(bin_id, Counter())
+                                for sample, n in sd.items():
+                                    tgt[sample] += n
+                except Exception as ex:
+                    acc.violate('count_fragments_binned-raised:' + type(ex).__name__, f'in-process counting raised {ex!r} (min_mq={mq}, {cfg})', {'config': cfg})
+                    break
+                acc.evals += 1
+                acc.count('history:shared_options_dict_rounds')
+                got = flatten(merged, False)
+                exp = Counter()
+                for cell_key, q_ in countable:
+                    if q_ >= mq:
+                        exp[cell_key] += 1
+                if got != exp:
+                    acc.violate('count-depends-on-earlier-round', f'in-process round with min_mq={mq} on an options dictionary used by earlier rounds: total '
+                                                                  f'{sum(got.values())} expected {sum(exp.values())} ({cfg})', {'config': cfg, 'min_mq': mq})
+                    break
         # ---- get_binned_counts
         nt = r.choice([1, 2, 4])
         try:
